@@ -108,7 +108,7 @@ def api_streams(run, nlists, sd, accels):
 
 
 def corpus_streams(run, n, sd):
-    jobs = corpus.all_singles(sd) + corpus.draw(n, sd, dedicated_bias=0.3)
+    jobs = corpus.all_singles(sd, tier=run.tier) + corpus.draw(n, sd, dedicated_bias=0.3)
     rs = vela_run.compile_many(jobs)
     out = []
     for j, x in zip(jobs, rs):
